@@ -12,7 +12,8 @@ outputs, an explicitly given output directory that equals the input directory.
 import ast
 
 from .. import analysis
-from ..astutil import calls_in, call_name, where, kw, local_assignments
+from ..astutil import calls_in, call_name, where, kw, local_assignments, atoms_at
+from ..symtext import Expander
 from ..cfg import build_cfg, enclosing_handlers
 from ..model import AnalysisError, FuncInfo, unparse, walk_no_nested
 
@@ -26,7 +27,8 @@ DECIDED = [
 NOT_DECIDED = ["byte identity of inputs (follows from the absence of write sinks under the library model)", "content of the outputs",
                "an explicit output directory equal to the input directory"]
 
-NO_RAISE_CALLS = ("str", "report.write", "os.path.splitext", "os.path.basename", "os.path.join", "curr_file.absolute")
+NO_RAISE_CALLS = ("str", "<report parameter>.write", "os.path.splitext", "os.path.basename", "os.path.join", "<loop variable>.absolute",
+                  "<constant>.format")
 SCRIPTS = ("scripts.odml_convert", "scripts.odml_to_rdf")
 DESTRUCTIVE = ("os.remove", "os.unlink", "os.rename", "os.replace", "os.rmdir", "shutil.rmtree", "shutil.move", "shutil.copy",
                "shutil.copyfile", "os.truncate")
@@ -63,7 +65,7 @@ def run(prog, rep):
             for root in node.expr_roots():
                 for c in calls_in(root):
                     fn = call_name(c)
-                    if fn in NO_RAISE_CALLS:
+                    if _harmless(c, f, lp):
                         continue
                     hs = enclosing_handlers(g, node)
                     ok = any(any(cn in ("Exception", "BaseException", "*") for cn in hn.info["classes"])
@@ -75,7 +77,8 @@ def run(prog, rep):
         rep.floor("ESC-3", n_guarded, 3, "failing calls in the loop of %s" % f.short)
         for h in [x for x in ast.walk(lp.ast) if isinstance(x, ast.ExceptHandler)]:
             inner_try = [x for x in h.body if isinstance(x, ast.Try)]
-            reports = any(call_name(c) == "report.write" for c in calls_in(h))
+            reports = any(isinstance(c.func, ast.Attribute) and c.func.attr == "write" and isinstance(c.func.value, ast.Name)
+                          and c.func.value.id in f.params for c in calls_in(h))
             rep.check(reports or inner_try, "ESC-3", "%s: handler at line %d reports" % (f.short, h.lineno), "report.write / nested conversion",
                       "an except clause neither reports nor continues with a guarded conversion", where(f, h))
 
@@ -86,16 +89,6 @@ def run(prog, rep):
         f = prog.func(m + ".main")
         rep.saw_function(f)
         g = build_cfg(f)
-        globs = {}
-        for n in walk_no_nested(f.node):
-            if isinstance(n, ast.Assign) and isinstance(n.targets[0], ast.Name):
-                for c in calls_in(n.value):
-                    if isinstance(c.func, ast.Attribute) and c.func.attr in ("glob", "rglob") and c.args and isinstance(c.args[0], ast.Constant):
-                        globs.setdefault(n.targets[0].id, set()).add(c.args[0].value)
-            if isinstance(n, ast.Expr) and isinstance(n.value, ast.Call) and isinstance(n.value.func, ast.Attribute) and n.value.func.attr == "extend":
-                for c in calls_in(n.value):
-                    if isinstance(c.func, ast.Attribute) and c.func.attr in ("glob", "rglob") and c.args and isinstance(c.args[0], ast.Constant):
-                        globs.setdefault(unparse(n.value.func.value), set()).add(c.args[0].value)
         want = {"XML": set(["*.odml", "*.xml"]), "JSON": set(["*.json"]), "YAML": set(["*.yaml"])}
         calls = []
         for node in g.nodes:
@@ -110,11 +103,10 @@ def run(prog, rep):
             lst = unparse(c.args[0])
             fmt = kw(c, "source_format", fmt_idx)
             fmt_v = fmt.value if isinstance(fmt, ast.Constant) else ("XML" if fmt is None else unparse(fmt))
-            pats = globs.get(lst, set())
+            pats = _list_globs(f, lst)
             rep.check(pats == want.get(fmt_v, set(["?"])), "FMT-1", "%s: %s converted as %s" % (f.short, lst, fmt_v), str(sorted(pats)),
                       "the files %s (globs %s) are converted with source format %s" % (lst, sorted(pats), fmt_v), where(f, c),
                       witness="a valid file of that kind which the other parser cannot read gets no output")
-            dom = all(g.dominates(node, p) for _, p in g.exit.pred if p.kind != "stmt" or "exit(" not in unparse(p.ast))
             conds = [(unparse(t), pol) for t, pol, _ in g.dominating_conditions(node) if "isdir" not in unparse(t)]
             rep.check(not conds, "FMT-1", "%s: conversion of %s is unconditional" % (f.short, lst), "ok",
                       "run_conversion(%s) only runs under %s" % (lst, conds), where(f, c))
@@ -126,66 +118,62 @@ def run(prog, rep):
                        "(rdf_dir is created inside out_dir)")
     for m in SCRIPTS:
         mod = prog.module_of(m)
-        for f in mod.functions.values():
-            if f.name not in ("run_conversion", "run_rdf_export"):
+        dirpos = {}        # function name -> indexes of its output directory parameters
+        for fname in ("run_rdf_export", "run_conversion"):
+            f = mod.functions.get(fname)
+            if f is None:
                 continue
             rep.saw_function(f)
-            dir_params = [p for p in f.params if p.endswith("_dir")]
-            outs = []
-            for n in walk_no_nested(f.node):
-                if isinstance(n, ast.Assign) and isinstance(n.value, ast.Call) and call_name(n.value) == "os.path.join" \
-                        and isinstance(n.targets[0], ast.Name) and n.targets[0].id.startswith("out"):
-                    outs.append(n)
-            rep.floor("PROV-9", len(outs), 1, "output paths in %s" % f.short)
-            for n in outs:
-                a = n.value.args
-                good_dir = len(a) == 2 and isinstance(a[0], ast.Name) and a[0].id in dir_params
-                name_ok = False
-                if len(a) == 2 and isinstance(a[1], ast.BinOp) and isinstance(a[1].op, ast.Mod) and isinstance(a[1].left, ast.Constant) \
-                        and isinstance(a[1].right, ast.Name):
-                    defs = local_assignments(f.node, a[1].right.id)
-                    name_ok = len(defs) == 1 and unparse(defs[0]).startswith("os.path.splitext(os.path.basename(") and unparse(defs[0]).endswith("))[0]") \
-                        and "/" not in a[1].left.value and ".." not in a[1].left.value
-                rep.check(good_dir, "PROV-9", "%s: %s lies in an output directory" % (f.short, n.targets[0].id), unparse(n.value)[:60],
-                          "output path `%s` is not built in one of the output directory parameters %s" % (unparse(n.value)[:70], dir_params), where(f, n),
-                          witness="outputs are written next to (or over) the input files")
-                rep.check(name_ok, "PROV-9", "%s: %s named by the input's base name without extension" % (f.short, n.targets[0].id), "splitext(basename(path))[0]",
-                          "the output file name is not `<constant> %% os.path.splitext(os.path.basename(<input>))[0]`: inputs with different base "
-                          "names can map to one output (or path separators leak in)", where(f, n),
-                          witness="rec.day1.xml and rec.day2.xml both become rec.rdf")
-            # every write goes to those variables
+            x = Expander(f)
             sinks = []
             for c in calls_in(f.node):
-                fn = call_name(c)
-                if fn.endswith(".write_to_file") or fn.endswith(".write_file"):
-                    sinks.append(c)
-            for c in sinks:
-                path_arg = c.args[0] if call_name(c).endswith("write_to_file") else (c.args[1] if len(c.args) > 1 else None)
-                ok = isinstance(path_arg, ast.Name) and path_arg.id in [n.targets[0].id for n in outs]
-                rep.check(ok, "PROV-9", "%s: %s writes to an output path" % (f.short, call_name(c)[-30:]), unparse(path_arg) if path_arg is not None else "?",
-                          "%s writes to `%s`, which is not one of the derived output paths" % (call_name(c), unparse(path_arg) if path_arg is not None else "?"),
-                          where(f, c), witness="the tool writes into the search directory")
+                if isinstance(c.func, ast.Attribute) and c.func.attr in ("write_to_file", "write_file"):
+                    path_arg = c.args[0] if c.func.attr == "write_to_file" else (c.args[1] if len(c.args) > 1 else None)
+                    sinks.append((c, path_arg))
+            rep.floor("PROV-9", len(sinks), 1, "output paths in %s" % f.short)
+            dirs = set()
+            for c, path_arg in sinks:
+                shape = _out_path_shape(x.expand(path_arg), f) if path_arg is not None else None
+                txt = x.text(path_arg) if path_arg is not None else "?"
+                rep.check(shape is not None and shape[0] is not None, "PROV-9", "%s: %s writes into an output directory" % (f.short, c.func.attr), txt[:70],
+                          "output path `%s` is not os.path.join(<output directory parameter>, ...)" % txt[:90], where(f, c),
+                          witness="outputs are written next to (or over) the input files")
+                rep.check(shape is not None and shape[1], "PROV-9", "%s: %s output named by the input's base name without extension" % (f.short, c.func.attr),
+                          "splitext(basename(path))[0]",
+                          "the output file name `%s` is not `<constant> %% os.path.splitext(os.path.basename(<input>))[0]`: inputs with different base "
+                          "names can map to one output (or path separators leak in)" % txt[:90], where(f, c),
+                          witness="rec.day1.xml and rec.day2.xml both become rec.rdf")
+                if shape is not None and shape[0] is not None:
+                    dirs.add(shape[0])
+            # directories handed on to a sibling function's directory parameter
+            for c in calls_in(f.node):
+                if isinstance(c.func, ast.Name) and c.func.id in dirpos:
+                    callee = mod.functions[c.func.id]
+                    for i in dirpos[c.func.id]:
+                        if i < len(c.args):
+                            a = c.args[i]
+                            ok = isinstance(a, ast.Name) and a.id in f.params
+                            rep.check(ok, "PROV-9", "%s: %s gets a directory parameter" % (f.short, c.func.id), unparse(a),
+                                      "%s passes `%s` as output directory of %s" % (f.short, unparse(a), c.func.id), where(f, c))
+                            if ok:
+                                dirs.add(a.id)
+            dirpos[fname] = sorted(f.params.index(d) for d in dirs if d in f.params)
         f = prog.func(m + ".main")
-        mk = [n for n in walk_no_nested(f.node) if isinstance(n, ast.Assign) and isinstance(n.value, ast.Call) and call_name(n.value) == "tempfile.mkdtemp"]
-        mk.sort(key=lambda n: n.lineno)
-        rep.floor("PROV-9", len(mk), 1, "mkdtemp calls in %s" % f.short)
-        made = set()
-        for n in mk:
-            d = kw(n.value, "dir", None)
-            ok = isinstance(d, ast.Name) and (d.id == "out_root" or d.id in made)
-            made.add(n.targets[0].id)
-            rep.check(ok, "PROV-9", "%s: %s is a fresh directory under the output root" % (f.short, n.targets[0].id), unparse(n.value)[:60],
-                      "%s is not created by tempfile.mkdtemp(dir=out_root|<fresh dir>)" % n.targets[0].id, where(f, n),
-                      witness="outputs land in an existing directory (possibly the input directory)")
-        roots = local_assignments(f.node, "out_root")
-        ok = all(unparse(r) in ("os.getcwd()", "parser['-o']") for r in roots) and roots
-        rep.check(bool(ok), "PROV-9", "%s: output root is the cwd or the -o directory" % f.short, str([unparse(r) for r in roots]),
-                  "out_root is derived from %s" % [unparse(r) for r in roots], f.where)
-        for node_c in calls_in(f.node):
-            if call_name(node_c) == "run_conversion":
-                dirs = [unparse(a) for a in node_c.args[1:] if isinstance(a, ast.Name) and a.id.endswith("_dir")]
-                rep.check(dirs and all(d in made for d in dirs), "PROV-9", "%s: run_conversion gets the fresh directories" % f.short, str(dirs),
-                          "run_conversion is called with output directories %s that were not created by mkdtemp" % dirs, where(f, node_c))
+        x = Expander(f)
+        n_rc = 0
+        for c in calls_in(f.node):
+            if not (isinstance(c.func, ast.Name) and c.func.id == "run_conversion"):
+                continue
+            n_rc += 1
+            for i in dirpos.get("run_conversion", []):
+                a = c.args[i] if i < len(c.args) else None
+                ok, why = _fresh_dir(x.expand(a), f) if a is not None else (False, "missing")
+                rep.check(ok, "PROV-9", "%s: run_conversion directory #%d is a fresh directory under the output root" % (f.short, i), why,
+                          "run_conversion is called with output directory `%s`, which is not tempfile.mkdtemp(dir=<cwd | -o directory | fresh dir>): %s"
+                          % (x.text(a)[:80] if a is not None else "?", why), where(f, c),
+                          witness="outputs land in an existing directory (possibly the input directory)")
+        rep.floor("PROV-9", n_rc, 3, "run_conversion calls in %s" % f.short)
+        rep.floor("PROV-9", len(dirpos.get("run_conversion", [])), 1, "output directory parameters of run_conversion in %s" % m)
 
     # ---------------------------------------------------------------- SINK-1
     rep.rule("SINK-1", "no call of %s anywhere in the package; every write-mode open reachable from the tools' main() is one of the "
@@ -219,22 +207,128 @@ def run(prog, rep):
     cf = prog.func("tools.converters.format_converter.FormatConverter._convert_file")
     rep.saw_function(cd)
     rep.saw_function(cf)
-    t = unparse(cd.node)
-    rep.check("output_dir_name = input_dir_name + '_' + res_format" in t and "output_dir = os.path.join(root_dir, output_dir_name)" in t
-              and "root_dir = os.path.dirname(os.path.dirname(input_dir))" in t, "FC-1", "implicit output directory differs from the input directory", "ok",
-              "the implicit output directory is no longer <parent>/<input dir name>_<format>", cd.where, witness="outputs written into the input directory")
-    calls = [c for c in calls_in(cd.node) if call_name(c) == "cls._convert_file"]
+    x = Expander(cd)
+    ind, outd = cd.params[1], cd.params[2]
+    IN = "os.path.join(%s, '')" % ind
+    want = "os.path.join(os.path.dirname(os.path.dirname(%s)), os.path.basename(os.path.dirname(%s)) + '_' + %s)" % (IN, IN, cd.params[4])
+    g = build_cfg(cd)
+    implicit = [n for n in g.nodes if n.kind == "stmt" and isinstance(n.ast, ast.Assign) and unparse(n.ast.targets[0]) == outd
+                and ("%s is None" % outd, True) in [(t0, p0) for t0, p0, _ in atoms_at(g, n)]]
+    rep.check(len(implicit) == 1 and x.text(implicit[0].ast.value, implicit[0]) == want, "FC-1", "implicit output directory differs from the input directory", "ok",
+              "the implicit output directory is no longer <parent>/<input dir name>_<format>: %s" % [x.text(n.ast.value, n) for n in implicit], cd.where,
+              witness="outputs written into the input directory")
+    calls = [c for c in calls_in(cd.node) if isinstance(c.func, ast.Attribute) and c.func.attr == "_convert_file"]
     ok = len(calls) == 2
     for c in calls:
-        ok = ok and unparse(c.args[0]).startswith(("os.path.join(input_dir", "in_file_path")) and \
-            (unparse(c.args[1]).startswith("os.path.join(output_dir") or unparse(c.args[1]) == "out_file_path")
-    rep.check(ok, "FC-1", "convert_dir passes (input path, output path) pairs", "ok", "_convert_file is not called with (path in input dir, path in output dir)", cd.where)
+        a0, a1 = x.text(c.args[0]), x.text(c.args[1])
+        n0 = set(y.id for y in ast.walk(x.expand(c.args[0])) if isinstance(y, ast.Name))
+        e1 = x.expand(c.args[1])
+        first = e1.args[0] if isinstance(e1, ast.Call) and call_name(e1) == "os.path.join" and e1.args else None
+        n1 = set(y for y in [getattr(z, "id", None) for z in ast.walk(first)] if y) if first is not None else set()
+        ok = ok and a0.startswith("os.path.join(") and ind in n0 and outd not in n0 and outd in n1
+    rep.check(ok, "FC-1", "convert_dir passes (input path, output path) pairs", "ok",
+              "_convert_file is not called with (path in input dir, path in output dir): %s" % [(x.text(c.args[0])[:60], x.text(c.args[1])[:60]) for c in calls], cd.where)
+    inp, outp = cf.params[1], cf.params[2]
+    fx = Expander(cf)
     for c in calls_in(cf.node):
         fn = call_name(c)
         if fn.endswith(("write_to_file", "write_file")) or fn == "odml.save":
             arg = c.args[-1] if fn == "odml.save" else c.args[0]
-            rep.check(unparse(arg) == "output_path", "FC-1", "_convert_file: %s writes output_path" % fn[-25:], "ok",
-                      "%s writes to %s" % (fn, unparse(arg)), where(cf, c), witness="the input file is overwritten")
+            names = set(y.id for y in ast.walk(fx.expand(arg)) if isinstance(y, ast.Name))
+            rep.check(outp in names and inp not in names, "FC-1", "_convert_file: %s writes output_path" % fn[-25:], "ok",
+                      "%s writes to %s" % (fn, fx.text(arg)), where(cf, c), witness="the input file is overwritten")
         if fn in ("odml.load", "VersionConverter"):
-            rep.check(unparse(c.args[0]) == "input_path", "FC-1", "_convert_file: %s reads input_path" % fn, "ok", "%s is applied to %s" % (fn, unparse(c.args[0])), where(cf, c))
+            rep.check(fx.text(c.args[0]) == inp, "FC-1", "_convert_file: %s reads input_path" % fn, "ok", "%s is applied to %s" % (fn, fx.text(c.args[0])), where(cf, c))
     rep.assume("tempfile.mkdtemp creates a new, empty directory; os.path.join/splitext/basename are pure")
+
+
+def _harmless(c, f, lp):
+    """calls of the per-file loop that cannot fail on a bad file: path arithmetic, str(), writing to the report parameter."""
+    fn = call_name(c)
+    if fn in ("str", "os.path.splitext", "os.path.basename", "os.path.join"):
+        return True
+    if isinstance(c.func, ast.Attribute):
+        recv = c.func.value
+        if c.func.attr == "write" and isinstance(recv, ast.Name) and recv.id in f.params:
+            return True
+        if c.func.attr == "absolute" and isinstance(recv, ast.Name) and isinstance(lp.ast.target, ast.Name) and recv.id == lp.ast.target.id:
+            return True
+        if c.func.attr == "format" and isinstance(recv, ast.Constant) and isinstance(recv.value, str):
+            return True
+    return False
+
+
+def _direct_globs(fnode, name):
+    out = set()
+    for n in walk_no_nested(fnode):
+        if isinstance(n, ast.Assign) and isinstance(n.targets[0], ast.Name) and n.targets[0].id == name:
+            for c in calls_in(n.value):
+                if isinstance(c.func, ast.Attribute) and c.func.attr in ("glob", "rglob") and c.args and isinstance(c.args[0], ast.Constant):
+                    out.add(c.args[0].value)
+        if isinstance(n, ast.Expr) and isinstance(n.value, ast.Call) and isinstance(n.value.func, ast.Attribute) and n.value.func.attr == "extend" \
+                and unparse(n.value.func.value) == name:
+            for c in calls_in(n.value):
+                if isinstance(c.func, ast.Attribute) and c.func.attr in ("glob", "rglob") and c.args and isinstance(c.args[0], ast.Constant):
+                    out.add(c.args[0].value)
+    return out
+
+
+def _list_globs(f, name, depth=0):
+    """glob patterns whose matches end up in list `name` of function f (through tuple results of module level helpers)."""
+    out = _direct_globs(f.node, name)
+    if depth > 2:
+        return out
+    for n in walk_no_nested(f.node):
+        if isinstance(n, ast.Assign) and isinstance(n.targets[0], (ast.Tuple, ast.List)) and isinstance(n.value, ast.Call) \
+                and isinstance(n.value.func, ast.Name) and n.value.func.id in f.module.functions:
+            h = f.module.functions[n.value.func.id]
+            for i, t in enumerate(n.targets[0].elts):
+                if isinstance(t, ast.Name) and t.id == name:
+                    for r in walk_no_nested(h.node):
+                        if isinstance(r, ast.Return) and isinstance(r.value, ast.Tuple) and i < len(r.value.elts) and isinstance(r.value.elts[i], ast.Name):
+                            out |= _list_globs(h, r.value.elts[i].id, depth + 1)
+    return out
+
+
+def _out_path_shape(e, f):
+    """(directory parameter | None, name_ok) for an expanded output path expression."""
+    if not (isinstance(e, ast.Call) and call_name(e) == "os.path.join" and len(e.args) == 2):
+        return None
+    d, nm = e.args
+    stem = None
+    const = None
+    if isinstance(nm, ast.BinOp) and isinstance(nm.op, ast.Mod) and isinstance(nm.left, ast.Constant) and isinstance(nm.left.value, str):
+        const, stem = nm.left.value, nm.right
+        ok_fmt = const.count("%s") == 1 and const.count("%") == 1
+    elif isinstance(nm, ast.Call) and isinstance(nm.func, ast.Attribute) and nm.func.attr == "format" and isinstance(nm.func.value, ast.Constant) \
+            and isinstance(nm.func.value.value, str) and len(nm.args) == 1 and not nm.keywords:
+        const, stem = nm.func.value.value, nm.args[0]
+        ok_fmt = const.count("{}") == 1 and const.count("{") == 1
+    else:
+        return (d.id if isinstance(d, ast.Name) and d.id in f.params else None, False)
+    stem_ok = isinstance(stem, ast.Subscript) and isinstance(stem.slice, ast.Constant) and stem.slice.value == 0 \
+        and isinstance(stem.value, ast.Call) and call_name(stem.value) == "os.path.splitext" and len(stem.value.args) == 1 \
+        and isinstance(stem.value.args[0], ast.Call) and call_name(stem.value.args[0]) == "os.path.basename"
+    name_ok = bool(ok_fmt and stem_ok and "/" not in const and "\\" not in const and ".." not in const)
+    used = set(y.id for y in ast.walk(stem) if isinstance(y, ast.Name)) if stem is not None else set()
+    dirp = d.id if isinstance(d, ast.Name) and d.id in f.params and d.id not in used else None
+    return (dirp, name_ok)
+
+
+def _fresh_dir(e, f, depth=0):
+    """is the expanded expression tempfile.mkdtemp(dir=<root>) with root = cwd / the -o option / another fresh directory?"""
+    if not (isinstance(e, ast.Call) and call_name(e) == "tempfile.mkdtemp"):
+        return False, "not a tempfile.mkdtemp(...) result: %s" % unparse(e)[:50]
+    d = kw(e, "dir", None)
+    if d is None:
+        return False, "mkdtemp without dir= creates the directory in the system temp dir, not under the chosen root"
+    if isinstance(d, ast.Call) and depth < 2:
+        return _fresh_dir(d, f, depth + 1)
+    if isinstance(d, ast.Name):
+        roots = local_assignments(f.node, d.id)
+        good = bool(roots) and all(unparse(r) == "os.getcwd()" or (isinstance(r, ast.Subscript) and isinstance(r.slice, ast.Constant) and r.slice.value == "-o")
+                                   for r in roots)
+        return good, "root %s = %s" % (d.id, [unparse(r) for r in roots])
+    if unparse(d) == "os.getcwd()":
+        return True, "cwd"
+    return False, "dir=%s" % unparse(d)[:40]
